@@ -57,6 +57,7 @@ class Prop:
         sc = {"clock": rng.choice(["test", "test", "historical"]), "kind": kind, "sources": ctx.sources, "subs": rng.choice([1, 1, 2]), "sub_t": 205, "horizon": 1200}
         if kind == "using":
             sc["res"] = rng.choice(["plain", "plain", "falsy", "bag", "none"])
+        sc["exc"] = rng.choice([None, None, None, "stop_iteration", "key_error", "type_error", "attribute_error"])  # what a raising callback / factory raises
         return sc
 
     # ------------------------------------------------------------ one run
@@ -77,7 +78,7 @@ class Prop:
                 log.append((w.tick(), w.now(), site))
                 if fault.get("site") == site and fault.get("k") == k:
                     w.fired.append((w.seq, site, k))
-                    raise vt.InjectedFault(site)
+                    raise vt.FAULT_CLASSES[sc.get("exc")](site)
             return f
 
         if kind == "using":
@@ -85,7 +86,7 @@ class Prop:
                 log.append((w.tick(), w.now(), "resource_factory"))
                 if fault.get("site") == "resource_factory":
                     w.fired.append((w.seq, "resource_factory", 0))
-                    raise vt.InjectedFault("resource_factory")
+                    raise vt.FAULT_CLASSES[sc.get("exc")]("resource_factory")
                 shape = sc.get("res", "plain")
                 if shape == "none":
                     return None  # "no resource": nothing to release, the sequence passes through
@@ -104,7 +105,7 @@ class Prop:
                 log.append((w.tick(), w.now(), "observable_factory"))
                 if fault.get("site") == "observable_factory":
                     w.fired.append((w.seq, "observable_factory", 0))
-                    raise vt.InjectedFault("observable_factory")
+                    raise vt.FAULT_CLASSES[sc.get("exc")]("observable_factory")
                 return src
 
             obs = rx.using(rf, of)
